@@ -576,6 +576,9 @@ func (b *builder) build(s *Spec, label string) gen.V {
 	case "collide":
 		// concrete strings that normalise to the same identifier
 		f["Enum"] = g.Anys(gen.Any(gen.TString(), absint.Lit("a-b")), gen.Any(gen.TString(), absint.Lit("a_b")), gen.Any(gen.TString(), absint.Lit("ab")))
+	case "collide4":
+		// FOUR concrete strings that normalise to one identifier: the suffix search for a free constant name must come to an end
+		f["Enum"] = g.Anys(gen.Any(gen.TString(), absint.Lit("a-b")), gen.Any(gen.TString(), absint.Lit("a_b")), gen.Any(gen.TString(), absint.Lit("a b")), gen.Any(gen.TString(), absint.Lit("a.b")))
 	case "lookalike":
 		// concrete values of different JSON types that print alike
 		f["Enum"] = g.Anys(gen.Any(gen.TFloat64(), float64(1)), gen.Any(gen.TString(), absint.Lit("1")), gen.Any(gen.TBool(), true), gen.Any(gen.TString(), absint.Lit("true")), absint.Iface{}, gen.Any(gen.TString(), absint.Lit("<nil>")))
